@@ -40,7 +40,7 @@ def compile_fortran(source, workdir, name='m', timeout=120):
     so = os.path.join(workdir, name + '.so')
     with open(src, 'w') as f:
         f.write(source)
-    p = subprocess.run(['gfortran', '-shared', '-fPIC', '-O0', '-J', workdir, '-o', so, src], cwd=workdir,
+    p = subprocess.run(['gfortran', '-shared', '-fPIC', '-O0', '-Wl,-Bsymbolic', '-J', workdir, '-o', so, src], cwd=workdir,
                        stdout=subprocess.PIPE, stderr=subprocess.STDOUT, text=True, timeout=timeout)
     if p.returncode != 0 or not os.path.exists(so):
         raise CompileError(p.stdout)
@@ -52,6 +52,14 @@ def _f64_in(a):
     if a.ndim != 2:
         raise ValueError('initial_values must be 2-dimensional')
     return a
+
+
+def _f64_out(nrows, ncols):
+    """Fresh Fortran-ordered output block.  One extra double (0.0) precedes it in memory: the template reads
+    `solved_values(0, 1)` when a convergence row number 0 is passed (see C07 finding
+    `convergence-variables-zero-based`), which is outside the array; the guard makes that read deterministic."""
+    buf = np.zeros(nrows * ncols + 1, dtype=np.float64)
+    return buf[1:].reshape((nrows, ncols), order='F')
 
 
 def _i32_in(xs):
@@ -76,7 +84,7 @@ class Engine:
     def evaluate(self, initial_values, t):
         iv = _f64_in(initial_values)
         nrows, ncols = iv.shape
-        out = np.zeros((nrows, ncols), dtype=np.float64, order='F')
+        out = _f64_out(nrows, ncols)
         code = c_int(0)
         self._evaluate(iv.ctypes.data_as(_dp), ctypes.byref(c_int(int(t))), out.ctypes.data_as(_dp),
                        ctypes.byref(code), ctypes.byref(c_int(nrows)), ctypes.byref(c_int(ncols)))
@@ -88,7 +96,7 @@ class Engine:
         iv = _f64_in(initial_values)
         nrows, ncols = iv.shape
         cv = _i32_in(convergence_variables)
-        out = np.zeros((nrows, ncols), dtype=np.float64, order='F')
+        out = _f64_out(nrows, ncols)
         converged, iteration, code = c_int(0), c_int(0), c_int(0)
         self._solve_t(iv.ctypes.data_as(_dp), ctypes.byref(c_int(int(t))), ctypes.byref(c_int(int(min_iter))),
                       ctypes.byref(c_int(int(max_iter))), ctypes.byref(c_double(float(tol))),
@@ -107,7 +115,7 @@ class Engine:
         idx = _i32_in(indexes)
         cv = _i32_in(convergence_variables)
         nper = len(idx)
-        out = np.zeros((nrows, ncols), dtype=np.float64, order='F')
+        out = _f64_out(nrows, ncols)
         conv = np.zeros(nper, dtype=np.int32)
         iters = np.zeros(nper, dtype=np.int32)
         codes = np.zeros(nper, dtype=np.int32)
